@@ -98,6 +98,26 @@ def apply_edit(prog, edit_seed, profile):
                         e["vals"] = [V.gen_value(rng, prof, 2) if rng.random() < 0.6 else v for v in e["vals"]]
 
 
+def positional_call(arg_text):
+    """does the argument contain a constructor call of a dataclass-like type written with positional arguments?"""
+    import ast
+
+    if not arg_text:
+        return False
+    try:
+        tree = ast.parse("(\n" + arg_text + "\n)", mode="eval")
+    except SyntaxError:
+        return False
+    names = {n.split(".")[-1] for n in V.CALL_TYPES}
+    for n in ast.walk(tree):
+        if isinstance(n, ast.Call) and n.args:
+            f = n.func
+            name = f.id if isinstance(f, ast.Name) else (f.attr if isinstance(f, ast.Attribute) else None)
+            if name in names:
+                return True
+    return False
+
+
 def src_class(src, kind, obs_model):
     if src is MISSING:
         return "missing"
@@ -247,7 +267,11 @@ def execute(case, ctx):
                 got_c = set(drivers.report_categories(res.get("out", ""))) - {"update"}
             ctx.count("category_sets_compared")
             if got_c != want_c:
-                viol("categories", f"reported={'+'.join(sorted(got_c))}:model={'+'.join(sorted(want_c))}",
+                sig = f"reported={'+'.join(sorted(got_c))}:model={'+'.join(sorted(want_c))}"
+                if got_c - want_c == {"fix"} and not (want_c - got_c) and any(positional_call(c.arg_text) for c in smap.values()):
+                    # narrow signature of the listed finding
+                    sig = "fix-reported-for-unchanged-positional-constructor-argument"
+                viol("categories", sig,
                      f"step {si} driver={driver} approved={sorted(approved)}: reported {sorted(got_c)} but the model says {sorted(want_c)}\n"
                      + "\n".join(f"  {sid} {sm.kind} src={src[sid]!r:.100} obs={[repr(x)[:40] for x in sm.obs][:5]} pending={sorted(sm.pending())}"
                                  for sid, sm in m.sites.items() if sm.kind is not None))
